@@ -97,12 +97,12 @@ static int fill_listener (int l) {
 }
 
 typedef struct { char op[16]; int h, a, b, c; char sarg[24]; } Cmd;
-static pthread_mutex_t emx = PTHREAD_MUTEX_INITIALIZER;
+static pthread_mutex_t emx = PTHREAD_MUTEX_INITIALIZER; static __thread int is_bg;
 static void run_cmd (const Cmd *cm) {
 	int h = cm->h, ok = 0, cloexec = -1, dataok = 1, from = 0, id = 0, osconn = -1; long res = 0, off = 0; PError *err = NULL; double t0; int code = 0, ms;
 	const char *op = cm->op;
 	pthread_mutex_lock (&emx);
-	VT ("{\"e\":\"scall\",\"h\":%d,\"op\":\"%s\",\"a\":%d,\"b\":%d,\"c\":%d,\"s\":\"%s\"}", h, op, cm->a, cm->b, cm->c, cm->sarg); VT_END ();
+	VT ("{\"e\":\"scall\",\"h\":%d,\"op\":\"%s\",\"a\":%d,\"b\":%d,\"c\":%d,\"s\":\"%s\",\"bg\":%d}", h, op, cm->a, cm->b, cm->c, cm->sarg, is_bg); VT_END ();
 	pthread_mutex_unlock (&emx);
 	in_api = 1; nsys = npoll = 0; syslog_[0] = 0; last_poll_timeout = -2; t0 = now_ms ();
 	if (!strcmp (op, "new")) {
@@ -178,12 +178,12 @@ static void run_cmd (const Cmd *cm) {
 	in_api = 0;
 	if (err) { code = p_error_get_code (err); p_error_free (err); }
 	pthread_mutex_lock (&emx);
-	VT ("{\"e\":\"sret\",\"h\":%d,\"op\":\"%s\",\"ok\":%d,\"res\":%ld,\"err\":%d,\"off\":%ld,\"dataok\":%d,\"from\":%d,\"id\":%d,\"cloexec\":%d,\"ms\":%d,\"nsys\":%d,\"npoll\":%d,\"pto\":%d,\"osconn\":%d,\"sys\":\"%s\",",
-	    h, op, ok, res, code, off, dataok, from, id, cloexec, ms, nsys, npoll, last_poll_timeout, osconn, syslog_);
+	VT ("{\"e\":\"sret\",\"h\":%d,\"op\":\"%s\",\"ok\":%d,\"res\":%ld,\"err\":%d,\"off\":%ld,\"dataok\":%d,\"from\":%d,\"id\":%d,\"cloexec\":%d,\"ms\":%d,\"nsys\":%d,\"npoll\":%d,\"pto\":%d,\"osconn\":%d,\"bg\":%d,\"sys\":\"%s\",",
+	    h, op, ok, res, code, off, dataok, from, id, cloexec, ms, nsys, npoll, last_poll_timeout, osconn, is_bg, syslog_);
 	getters (h); VT ("}"); VT_END ();
 	pthread_mutex_unlock (&emx);
 }
-static void *bg_main (void *arg) { run_cmd ((Cmd *) arg); free (arg); return NULL; }
+static void *bg_main (void *arg) { is_bg = 1; run_cmd ((Cmd *) arg); free (arg); return NULL; }
 
 int main (int argc, char **argv) {
 	FILE *in; char line[512]; pthread_t bg; int have_bg = 0;
